@@ -541,7 +541,7 @@ func Run(ctx *core.Ctx) {
 	}
 	rounds := ctx.Pick(1, 10)
 	groupsPerRound := ctx.Pick(4, 5)
-	seqPerGroup := ctx.Pick(6, 8)
+	seqPerGroup := ctx.Pick(8, 8)
 	gidx := 0
 	for round := 0; round < rounds && !e.stop(); round++ {
 		kind := "plain"
